@@ -915,6 +915,82 @@ def gen_lp_glue(lp: ast.AST) -> str:
             f"def lpGlueValues : List String := {ls(val)}\n")
 
 
+
+def gen_init_point(sc: ast.AST) -> str:
+    """`_compute_initial_point`: the two constants and the four branches (both bounds / lower only / upper only /
+    free) translated expression by expression into Lean functions over ℚ (`Generated/InitPoint.lean`); the model
+    `Py.initialCoord` calls them, so `C09.initialPoint_in_bounds` is about the start rule the source has today."""
+    fn = find_func(sc, "_compute_initial_point")
+    consts = {}
+    loop = None
+    for st in fn.body:
+        if isinstance(st, ast.Assign) and isinstance(st.targets[0], ast.Name) and st.targets[0].id.startswith("_INTERIOR_"):
+            consts[st.targets[0].id] = ast.literal_eval(st.value)
+        elif isinstance(st, ast.For):
+            loop = st
+    if set(consts) != {"_INTERIOR_EPSILON", "_INTERIOR_FRACTION"} or loop is None:
+        raise TranslateError(f"_compute_initial_point: constants {sorted(consts)} / loop {'found' if loop else 'missing'}")
+    if _u(loop.target) != "(i, v)" or _u(loop.iter) != "enumerate(variables)" or len(loop.body) != 3:
+        raise TranslateError(f"_compute_initial_point: loop header / body {[_u(x)[:40] for x in loop.body]}")
+    if [_u(x) for x in loop.body[:2]] != ["lb = v.lb if v.lb is not None else -np.inf", "ub = v.ub if v.ub is not None else np.inf"]:
+        raise TranslateError(f"_compute_initial_point: bound reads {[_u(x) for x in loop.body[:2]]}")
+    names = {"_INTERIOR_EPSILON": "initEps", "_INTERIOR_FRACTION": "initFrac"}
+
+    def ex(n, env):
+        if isinstance(n, ast.Name):
+            if n.id in env:
+                return env[n.id]
+            if n.id in names:
+                return names[n.id]
+            raise TranslateError(f"_compute_initial_point: unbound name {n.id!r}")
+        if isinstance(n, ast.Constant) and isinstance(n.value, (int, float)) and not isinstance(n.value, bool):
+            return lean_rat(n.value)
+        if isinstance(n, ast.BinOp) and type(n.op) in (ast.Add, ast.Sub, ast.Mult, ast.Div):
+            o = {ast.Add: "+", ast.Sub: "-", ast.Mult: "*", ast.Div: "/"}[type(n.op)]
+            return f"({ex(n.left, env)} {o} {ex(n.right, env)})"
+        if isinstance(n, ast.Call) and _u(n.func) in ("max", "min") and len(n.args) == 2 and not n.keywords:
+            return f"({'pyMax' if _u(n.func) == 'max' else 'pyMin'} {ex(n.args[0], env)} {ex(n.args[1], env)})"
+        raise TranslateError(f"_compute_initial_point: unsupported expression {_u(n)!r}")
+
+    def branch(stmts, params):
+        env = {p: p for p in params}
+        lets = []
+        for st in stmts[:-1]:
+            if not (isinstance(st, ast.Assign) and isinstance(st.targets[0], ast.Name)):
+                raise TranslateError(f"_compute_initial_point: statement {_u(st)[:60]!r}")
+            nm = st.targets[0].id
+            lets.append(f"  let {nm} : Rat := {ex(st.value, env)}")
+            env[nm] = nm
+        last = stmts[-1]
+        if not (isinstance(last, ast.Assign) and _u(last.targets[0]) == "x0[i]"):
+            raise TranslateError(f"_compute_initial_point: a branch does not end in `x0[i] = …`: {_u(last)[:60]!r}")
+        return "\n".join(lets + ["  " + ex(last.value, env)])
+
+    chain = loop.body[2]
+    tests, bodies = [], []
+    cur = chain
+    while isinstance(cur, ast.If):
+        tests.append(_u(cur.test))
+        bodies.append(cur.body)
+        if len(cur.orelse) == 1 and isinstance(cur.orelse[0], ast.If):
+            cur = cur.orelse[0]
+        else:
+            bodies.append(cur.orelse)
+            break
+    if tests != ["np.isfinite(lb) and np.isfinite(ub)", "np.isfinite(lb)", "np.isfinite(ub)"] or len(bodies) != 4:
+        raise TranslateError(f"_compute_initial_point: branch tests {tests}")
+    out = ["/-- Python `max(a, b)` / `min(a, b)` on numbers -/",
+           "def pyMax (a b : Rat) : Rat := if a < b then b else a",
+           "def pyMin (a b : Rat) : Rat := if b < a then b else a",
+           f"def initEps : Rat := {lean_rat(consts['_INTERIOR_EPSILON'])}",
+           f"def initFrac : Rat := {lean_rat(consts['_INTERIOR_FRACTION'])}",
+           "/-- both bounds finite -/", "def initBoth (lb ub : Rat) : Rat :=", branch(bodies[0], ["lb", "ub"]),
+           "/-- only the lower bound finite -/", "def initLower (lb : Rat) : Rat :=", branch(bodies[1], ["lb"]),
+           "/-- only the upper bound finite -/", "def initUpper (ub : Rat) : Rat :=", branch(bodies[2], ["ub"]),
+           "/-- unbounded -/", "def initFree : Rat :=", branch(bodies[3], [])]
+    return "\n".join(out) + "\n"
+
+
 HEADER = """/-
   GENERATED by harness/gen_tables.py from the optyx sources — do not edit.
   Regenerated before every build; the theorems that mention these definitions are
@@ -953,6 +1029,10 @@ def main(repo: str, outdir: str, dry: bool = False) -> int:
         return (HEADER + "import Optyx.Py.JacScale\n\nnamespace Optyx.Generated\nopen Optyx Optyx.Py\n\n"
                 + gen_binop_jacrow(src("core/expressions.py")) + "\nend Optyx.Generated\n")
 
+    def f_init():
+        return (HEADER + "namespace Optyx.Generated\n\n" + gen_init_point(src("solvers/scipy_solver.py"))
+                + "\nend Optyx.Generated\n")
+
     def f_glue():
         return (HEADER + "namespace Optyx.Generated\n\n" + gen_solver_glue(src("solvers/scipy_solver.py"))
                 + gen_make_constraint(src("constraints.py")) + gen_lp_glue(src("solvers/lp_solver.py"))
@@ -960,7 +1040,7 @@ def main(repo: str, outdir: str, dry: bool = False) -> int:
 
     changed, errors, h = False, {}, hashlib.sha256()
     for fname, make in (("GradRules", f_rules), ("Tables", f_tables), ("Closures", f_closures), ("SolverGlue", f_glue),
-                        ("JacRow", f_jacrow)):
+                        ("JacRow", f_jacrow), ("InitPoint", f_init)):
         path = os.path.join(outdir, fname + ".lean")
         try:
             text = make()
